@@ -765,3 +765,61 @@ pub fn binary(cfg: Cfg, max_data: usize) -> Space {
         },
     )
 }
+
+// ---------------------------------------------------------------------------------------------
+// MSG-VIA-LINE: the same payloads through the sentence path
+
+/// For every layout variant × 5 contents × every bit length in the last byte (nbits-7..=nbits) ×
+/// padding bits {0,1} × every fill 0..=5: armor, wrap into a sentence, parse with decoding on and
+/// compare with the reference decoder applied to the reference unarmoring.
+pub fn via_line(cfg: Cfg) -> Space {
+    use crate::canon::Out;
+    use crate::spec::line::sentence;
+    use crate::spec::unarmor::{armor_bits, unarmor_ref};
+    use crate::subj::{DecodeOut, Parser};
+    let vars = variants();
+    let nv = vars.len() as u64;
+    Space::new(
+        "MSG-VIA-LINE",
+        &format!("{} layout variants x 5 contents x bit lengths nbits-7..=nbits x padding {{0,1}} x fill 0..=5, through AisParser::parse(line, true)", nv),
+        nv * 5 * 8 * 2 * 6,
+        move |i, l| {
+            let mut r = Radix(i);
+            let fill = r.take(6) as u8;
+            let pad = r.take(2) as u8;
+            let cut = r.take(8) as usize;
+            let pat = r.take(5);
+            let v = &vars[r.0 as usize];
+            let mut p = if pat < 4 {
+                v.base(pat)
+            } else {
+                let mut q: Vec<u8> = (0..v.nbytes).map(|j| (j as u8).wrapping_mul(29).wrapping_add(7)).collect();
+                for &(o, w, val) in &v.fix {
+                    set_bits(&mut q, o, w, val);
+                }
+                q
+            };
+            let nbits = v.nbits() - cut;
+            // bits beyond nbits are not transmitted
+            for b in nbits..v.nbits() {
+                set_bits(&mut p, b, 1, 0);
+            }
+            let (chars, _natural_fill) = armor_bits(&p, nbits, pad);
+            let line = sentence(1, 1, b"", &chars, fill);
+            let mut parser = Parser::new();
+            let out = parser.parse(&line, true);
+            let bytes = unarmor_ref(&chars, fill as usize).unwrap();
+            let exp = msg::expect(&bytes);
+            let got = match out {
+                Out::Complete(s) => match s.msg {
+                    Some(f) => DecodeOut::Ok(f),
+                    None => DecodeOut::Panic("Complete without a message although decoding was requested".into()),
+                },
+                Out::Incomplete(_) => DecodeOut::Panic("unfragmented sentence yielded Incomplete".into()),
+                Out::Err(e) => DecodeOut::Err(e),
+                Out::Panic(p) => DecodeOut::Panic(p),
+            };
+            super::msgjudge::judge_decoded(l, &bytes, &exp, &got, cfg);
+        },
+    )
+}
